@@ -623,7 +623,7 @@ class RawAlgorithmsMixIn:
         """
         z = -x
         """
-        return numpy.multiply(x_data, -1, out=out)
+        return numpy.negative(x_data, out=out)
 
     @classmethod
     def _pb_negative(cls, ybar_data, x_data, y_data, out = None):
